@@ -24,8 +24,6 @@ NOT_APPLICABLE = {
     'C17': 'the decision is computed by iterator-adapter chains (groups_of().next().and_then(), filter_map/map/collect, any/contains) '
            'whose results Verus cannot constrain, on HashMap-held attributes Kani cannot carry',
     'C18': 'process-level property over files, stdin, sockets and exit status',
-    'C19': 'IppAttributes::add / groups_of use iter_mut().find() / filter() whose results are opaque to Verus and whose HashMap '
-           'defeats Kani; collection traversal uses iter().nth() (opaque): these stay in the trusted base of the other checks',
     'C20': 'behaviour of derive-generated serde code and serde_json; no function of ipp.rs to put under contract',
 }
 PENDING = {
@@ -72,6 +70,12 @@ LEVEL_TEXT = {
            'whole abstract attribute view (group sequence, name -> value maps) EQUAL the RFC 8011 request model of their arguments — '
            'operation code literal from the RFC table, version 1.1, request-id 1, charset/language/printer-uri, job-id integer, '
            'last-document boolean, requesting-user-name / job-name as nameWithoutLanguage, job attributes in order (last wins), payload identity.',
+    'C19': 'Deductive proof (Verus) on the real IppAttributes::add: for every container state (repeated and empty groups included) and every '
+           'attribute, the abstract view afterwards EQUALS spec_add of the view before — inserted into the first group of the kind replacing the '
+           'equally named attribute, or a new group appended at the end, every other group unchanged; lemma_add_history (proved by induction over '
+           'the history) derives the statement about sequences of additions: one group per kind used, in order of first use, each holding exactly '
+           'the names added under it with the most recent value. Lookup by kind (groups_of) is an assumed contract and value traversal is outside '
+           'both tools: those two clauses are BOUNDED only (check c19) and not counted as proved.',
     'C16': 'Complete finite-domain proofs with Kani on the real derive expansions: every u16 status/operation code, every tag byte, '
            'every i32 for the five attribute enums, against registry tables embedded in the harness; Verus contracts for '
            'status_code() fallback and is_success().',
